@@ -569,6 +569,21 @@ func c16() {
 			add(&c16Case{kind: "long-line", arch: "i386", text: []byte(long + nl), mustError: n >= 65536})
 		}
 	}
+	// the same behind exactly N readable lines (a reader that works in batches of lines or bytes has its boundaries somewhere)
+	for _, nLines := range []int{1, 2, 3, 63, 64, 65, 127, 128, 129, 255, 256, 257, 511, 512, 513, 1023, 1024, 1025, 2047, 2048, 2049, 3072, 4095, 4096, 4097, 8192, 10000} {
+		var sb strings.Builder
+		sb.WriteString("TEXT main.batch(SB) /src/batch.go\n")
+		for k := 1; k < nLines; k++ {
+			if k%2 == 1 {
+				sb.WriteString("  batch.go:1\t0x1\tb8\tMOVL $0x27, AX\n")
+			} else {
+				sb.WriteString("  batch.go:2\t0x2\t0f05\tSYSCALL\n")
+			}
+		}
+		a := []string{"x86_64", "i386"}[nLines%2]
+		add(&c16Case{kind: "long-line", arch: a, text: []byte(sb.String() + strings.Repeat("y", 70000) + "\n" + base), mustError: true})
+		run.Count("overlong_lines_behind_a_chosen_number_of_lines", 1)
+	}
 	// a directory instead of a file: read fails with EISDIR
 	add(&c16Case{kind: "directory", arch: "x86_64", isDir: true, mustError: true})
 	add(&c16Case{kind: "directory", arch: "i386", isDir: true, mustError: true})
